@@ -831,7 +831,27 @@ impl Interp {
                     ..
                 } = &mut msg
                 {
-                    match field % 6 {
+                    // a second, independently chosen ratio for updates that carry several fields
+                    let r2 = ratio_tab[idx(knob.wrapping_mul(31).wrapping_add(7), ratio_tab.len())];
+                    let r3 = ratio_tab[idx(knob.wrapping_mul(131).wrapping_add(3), ratio_tab.len())];
+                    match field % 10 {
+                        6 => {
+                            *toll_ratio = Some(u(r));
+                            *spread_ratio = Some(u(r2));
+                        }
+                        7 => {
+                            *spread_ratio = Some(u(r));
+                            *fluctuation_limit_ratio = Some(u(r2));
+                        }
+                        8 => {
+                            *toll_ratio = Some(u(r));
+                            *spread_ratio = Some(u(r2));
+                            *fluctuation_limit_ratio = Some(u(r3));
+                        }
+                        9 => {
+                            *toll_ratio = Some(u(r2));
+                            *fluctuation_limit_ratio = Some(u(r));
+                        }
                         0 => *toll_ratio = Some(u(r)),
                         1 => *spread_ratio = Some(u(r)),
                         2 => *fluctuation_limit_ratio = Some(u(r)),
